@@ -12,6 +12,10 @@ CHECKS = {
    technique="Kani/CBMC bounded model checking of Position/Span code over every valid UTF-8 string up to N bytes and every offset (SAT verdict), counterexamples replayed natively by concrete playback",
    text="For every valid UTF-8 string of at most N bytes (N=4 quick, 6 thorough; validity decided by the real core::str::from_utf8 inside the harness, so multi-byte, CR, LF, CRLF, tabs all included) and every usize offset / offset pair / RangeBounds form, CBMC proves Position::new, line_col, line_of, Span::new, Span::get, merge_spans (and lines_span in the thorough tier) equal short reference definitions and never panic. Unwinding assertions are on, so the loop bounds are checked, not assumed.",
    note="Trusted: Kani translation, CBMC. Outside the claim: strings longer than N bytes; LineIndex / Pair::line_col / Error line-col and rendered text (planned on engine M). 'Overlap' for lines_span is read as closed interval, see DESIGN.md §5 C10."),
+ "C11": dict(level="model_checking", design="§5 C11", engine="M",
+   technique="symbolic execution of the MIR of pest/src/stack.rs (operation selectors and elements as z3 bit-vectors, z3 deciding every branch and every equality with the naive model), plus a one-step inductive check from every representation state within size bounds; every path replayed on the compiled crate",
+   text="(a) All histories of N operations (N=6 quick, 8 thorough) from Stack::new(), selectors symbolic over the six operations and elements symbolic u8: after every operation z3 proves contents, len, peek and popped elements equal to the naive copy-per-snapshot model and that no MIR assert (overflow, bounds) can fail. (b) Inductive step: from every representation state (|cache|,|popped|<=4/5, <=3/4 snapshots) satisfying the stated invariant, one arbitrary operation preserves the invariant and commutes with the model under the abstraction function, which extends (a) to histories of any length whose states stay within those sizes. A step counterexample is reported only if its pre-state is reached by a real history and the failure reproduces through the public API.",
+   note="Trusted: the MIR dump corresponds to the compiled code; the executor; summaries of Vec operations over a python list (every explored path is replayed natively against pest::Stack<u8> and any disagreement makes the check inconclusive); z3. Element type fixed to u8."),
 }
 
 NOT_APPLICABLE = {
@@ -65,6 +69,6 @@ def main():
     jsonschema.validate(m, json.load(open("/root/.vp/MANIFEST.schema.json")))
     print("MANIFEST.json written:", len(checks), "checks,", len(na), "not_applicable")
 
-HOOK_COMMITS = []
+HOOK_COMMITS = ["abfe286", "411154d"]
 if __name__ == "__main__":
     main()
